@@ -290,6 +290,8 @@ class Schedule:  # 0404
             if not did_io:  # must know the version of the schedule about to be RQ'd
                 self._global_ver, _ = await self.tcs._schedule_version(force_io=True)
 
+            # a schedule eavesdropped whilst waiting for the lock may be out of date by now
+            self._full_schedule = {}  # it is re-validated by the 1st frag, below
             self._payload_set[0] = None  # if 1st frag valid: schedule very likely unchanged
             while frag_num := next(
                 i for i, f in enumerate(self._payload_set, 1) if f is None
